@@ -3,6 +3,7 @@ package main
 import (
 	"fmt"
 	"go/types"
+	"os"
 	"strings"
 
 	"golang.org/x/tools/go/ssa"
@@ -39,13 +40,34 @@ func runC06(p *Program, r *Report) {
 		pe.Inline = true
 		ok := true
 		n := 0
+		tsSubj := discoverTmplStatus(p)
+		if len(calls[0].Common().Args) > 0 {
+			tsSubj = tsSubj.withSubject(pe, calls[0].Common().Args[0])
+		}
 		for _, pth := range pe.Paths() {
 			if !pathPassesAny(pth, calls) {
 				continue
 			}
+			if !tsSubj.pathFeasible(pe, pth) {
+				continue // the conditions assumed about the template's record contradict each other
+			}
 			n++
-			if ts := discoverTmplStatus(p); !ts.pathImplies(pe, pth, "fresh") {
+			if ts := tsSubj; !ts.pathImplies(pe, pth, "fresh") {
 				ok = false
+				if os.Getenv("C06_DEBUG") != "" {
+					fmt.Println("C06 path:", pth.String())
+					for nm, val := range pth.Atoms {
+						av, have := pe.AtomVals[nm]
+						fmt.Printf("   atom %s=%v have=%v", nm, val, have)
+						if have {
+							fmt.Printf(" cond=%s neg=%v fresh=%v ok=%v", av.v, av.neg, ts.atomConsistent(av, val, ts.fresh), ts.atomConsistent(av, val, ts.ok))
+							for _, fv := range ts.fails {
+								fmt.Printf(" fail=%v", ts.atomConsistent(av, val, fv))
+							}
+						}
+						fmt.Println()
+					}
+				}
 			}
 		}
 		r.Check(ok && n > 0, "C06.R1", "template."+name+"#analyse-once", p.Pos(calls[0].Pos()), "the analysis runs only on paths where escapeErr == nil (never for a template already analysed or failed)", "a template can be analysed (and its tree rewritten) again although escapeErr is already set")
